@@ -1458,8 +1458,9 @@ fn gen_case(rng: &mut Rng, id: usize, tier: &str) -> String {
     let (kind, rows) = gen_matrix(rng, tier);
     let seq = gen_seq(rng, &rows, tier);
     let line = case_line(rng, &id.to_string(), &kind, &rows, &seq);
-    // histories on one reused score buffer: 30% of the DNA cases
-    if rng.chance(3, 10) {
+    // histories on one reused score buffer: 30% of the DNA cases (12% in the thorough tier, which has 40 times as many
+    // cases: every step evaluates the list-based generic model once more)
+    if rng.chance(if tier == "thorough" { 12 } else { 30 }, 100) {
         let l = if seq == "-" { 0 } else { seq.len() };
         let h = gen_hists(rng, rows.len(), l);
         if rng.chance(1, 3) {
